@@ -124,9 +124,17 @@ class Sim:
             return
         k = str(lhs["l"])
         v = self._rvalue_val(rv, env)
+        sub = {}
+        if rv["k"] == "use":
+            # moving / copying a compound value carries what is known about its parts
+            sp = op_place(rv["op"])
+            if sp is not None:
+                sk = pkey(sp)
+                sub = {k + kk[len(sk):]: vv for kk, vv in env.items() if kk != sk and _is_prefix_key(kk, sk)}
         self.inval(env, k)
         if v is not None:
             env[k] = v
+        env.update(sub)
 
     def _rvalue_val(self, rv, env):
         k = rv["k"]
@@ -240,6 +248,23 @@ class Sim:
                 upd["dest"] = ("v", "Err")
             elif dty.startswith("core::option::Option<"):
                 upd["dest"] = ("v", "None")
+            return upd, set()
+        # `iter.enumerate()`: the first item carries position 0, every later one a non-zero position
+        if d.endswith("Iterator::enumerate") and args:
+            upd["dest"] = ("enum", 0)
+            return upd, set()
+        if d.endswith("IntoIterator::into_iter") and args:
+            v = self.val_of_operand(args[0], env)
+            if isinstance(v, tuple) and v[0] == "enum":
+                upd["dest"] = v
+                return upd, set()
+        if d.endswith("Iterator::next") and args and "Enumerate<" in (c.get("self_ty") or ""):
+            tgt = self.deref_target(args[0], env)
+            v = env.get(tgt) if tgt else None
+            if isinstance(v, tuple) and v[0] == "enum" and t.get("dest") is not None:
+                upd[pkey(t["dest"]) + "@Some.0.0"] = ("i", 0) if v[1] == 0 else ("nz",)
+                upd[tgt] = ("enum", 1)
+                return upd, {tgt}
             return upd, set()
         if d == "core::mem::replace" and len(args) == 2:
             tgt = self.deref_target(args[0], env)
